@@ -13,7 +13,7 @@ class Unit:
         self.name = name; self.harness = harness if isinstance(harness, (list, tuple)) else [harness]
         self.libcfg = libcfg; self.cases = cases; self.shards = shards; self.max_size = max_size
         self.cxx = cxx; self.hflags = list(hflags); self.link_flags = list(link_flags); self.libs = list(libs)
-        self.wrapper = list(wrapper); self.args = list(args); self.env = env or {}
+        self.wrapper = list(wrapper); self.args = args if callable(args) else list(args); self.env = env or {}
         self.extra_objs = list(extra_objs); self.timeout = timeout
         self.crash_is_violation = crash_is_violation
         self.builder = builder      # optional callable(unit, workdir) -> path of binary
@@ -35,6 +35,8 @@ class Unit:
         return self.binary
 
     def cmd(self, *a):
+        if callable(self.args):
+            self.args = list(self.args())      # resolved lazily (e.g. builds of many library configurations)
         return self.wrapper + [self.binary] + list(a) + self.args
 
 
